@@ -302,6 +302,10 @@ def run(ctx):
         summarize(ctx, res, replay=H.replay_path)
     res = verify(ctx, cache_dir_contract())
     summarize(ctx, res)
+    from contracts import frames as FR
+
+    for c in (FR.populate_contract(), FR.save_contract(), FR.record_error_contract()):
+        summarize(ctx, verify(ctx, c))
     bounded_states(ctx)
     bounded_rerun_propagation(ctx)
 
